@@ -372,9 +372,35 @@ Fixpoint check_pairs (l : list snapshot) : bool :=
   | _ => true
   end.
 
+(* spawn results: when spawn_linked(c under p) is first observed to have returned Ok, c is in p's
+   child set (and names p), or c has been terminated as well (Stopped).  "Ok, alive, and not linked
+   to the requested supervisor" is the orphan the property excludes.  (Between the link inside
+   start() and the quiescent point only p's own exit can remove c from p's set, and that kills c.) *)
+Definition res_ok (r : list (option bool)) (c : aid) : bool :=
+  match nth_error r (N.to_nat c) with Some (Some true) => true | _ => false end.
+
+Definition check_spawn_at (reqs : list (aid * aid)) (prev : list (option bool))
+                          (cur : snapshot * list (option bool)) : bool :=
+  forallb (fun cp =>
+             let '(c, p) := cp in
+             if res_ok (snd cur) c && negb (res_ok prev c) then
+               oeq (sup_of (fst cur) c) p || (rank_of (fst cur) c =? 6)
+             else true) reqs.
+
+Fixpoint check_spawns (reqs : list (aid * aid)) (prev : list (option bool))
+                      (l : list (snapshot * list (option bool))) : bool :=
+  match l with
+  | [] => true
+  | x :: t => check_spawn_at reqs prev x && check_spawns reqs (snd x) t
+  end.
+
 (* the oracle of C05 on the implementation's sequence of quiescent snapshots *)
 Definition check_C05 (l : list snapshot) : bool :=
   forallb check_snap l && check_pairs l.
+
+(* ... together with the spawn results (reqs = the spawn_linked requests (child, supervisor)) *)
+Definition check_C05_full (reqs : list (aid * aid)) (l : list (snapshot * list (option bool))) : bool :=
+  check_C05 (map fst l) && check_spawns reqs [] l.
 
 (* ---- driver ---------------------------------------------------------------------------- *)
 
